@@ -31,6 +31,7 @@ type invCfg struct {
 	compute      []fnRef
 	invalidators []invalidator
 	keyFields    []string          // fields that are part of the cache key (their change needs no invalidation)
+	keyCtor      *fnRef            // when set, the key fields are derived: fields of T passed to this key constructor (name prefix) by the computation, in a parameter that reaches its result; keyFields is then the expected minimum
 	exempt       map[string]string // field -> reason (the cache itself, memo fields written by C, scratch)
 	floorReads   int
 }
@@ -171,9 +172,39 @@ func ruleInv(p *Prog, r *Report, c invCfg) {
 		}
 	}
 	isKey := map[string]bool{}
-	for _, k := range c.keyFields {
-		p.Field(c.pkg, c.typ, k)
-		isKey[k] = true
+	if c.keyCtor != nil {
+		for _, root := range roots {
+			for _, b := range root.Blocks {
+				for _, in := range b.Instrs {
+					call, ok := in.(*ssa.Call)
+					if !ok {
+						continue
+					}
+					sc := call.Common().StaticCallee()
+					if sc == nil || !strings.HasPrefix(sc.Name(), c.keyCtor.name) || sc.Signature.Recv() == nil || namedOf(sc.Signature.Recv().Type()) != p.Named(c.keyCtor.pkg, c.keyCtor.recv) {
+						continue
+					}
+					for i, a := range call.Common().Args {
+						src := map[*types.Var]bool{}
+						findFieldSources(a, src, 0)
+						for fld := range src {
+							if tf[fld] && i > 0 && paramReachesReturn(p, sc, i, 0) {
+								isKey[fld.Name()] = true
+							}
+						}
+					}
+				}
+			}
+		}
+		for _, k := range c.keyFields {
+			p.Field(c.pkg, c.typ, k)
+			r.Check(isKey[k], rule, c.name+"/key("+k+")", p.Pos(roots[0].Pos()), fmt.Sprintf("the computation passes %s.%s to the key constructor %s*, in a parameter that reaches the key", c.typ, k, c.keyCtor.name))
+		}
+	} else {
+		for _, k := range c.keyFields {
+			p.Field(c.pkg, c.typ, k)
+			isKey[k] = true
+		}
 	}
 	for k := range c.exempt {
 		p.Field(c.pkg, c.typ, k)
